@@ -827,8 +827,9 @@ def fold_container_aliases(rel, module, refnames):
 
 
 def strip_local_annotations(module):
-    """Step S40.  Inside functions `x: T = v` -> `x = v` and a bare `x: T` is dropped: the annotation of a local variable is never
-    evaluated (PEP 526), so the statement is the plain assignment.  (Module and class level annotations are evaluated and kept.)"""
+    """Step S40.  Inside functions `x: T = v` / `self.a: T = v` -> the plain assignment, and a bare `x: T` is dropped: inside a
+    function an annotation is never evaluated (PEP 526), so the statement is the plain assignment.  (Module and class level
+    annotations are evaluated and kept.)"""
     n = 0
     for fn in ast.walk(module.tree):
         if not isinstance(fn, (ast.FunctionDef, ast.AsyncFunctionDef)):
@@ -842,7 +843,9 @@ def strip_local_annotations(module):
                     continue
                 out = []
                 for st in blk:
-                    if isinstance(st, ast.AnnAssign) and isinstance(st.target, ast.Name) and st.simple:
+                    if isinstance(st, ast.AnnAssign) and (isinstance(st.target, ast.Name) or
+                                                         (isinstance(st.target, (ast.Attribute, ast.Subscript)) and
+                                                          (st.value is not None or _pure(st.target)))):
                         n += 1
                         if st.value is not None:
                             out.append(ast.copy_location(ast.Assign(targets=[st.target], value=st.value), st))
@@ -856,10 +859,13 @@ def strip_local_annotations(module):
 
 
 def normalise_function_names(repo):
-    """Step S41.  A function of the reference tree that is gone while a new one with the same place (module, class), the same
-    parameter list and a similar body has appeared was RENAMED: the definition and every reference to the new name (calls,
-    attribute accesses, imports) get the reference name back, repository-wide.  Only names that occur nowhere in the reference
-    tree are mapped, and only when the match is unique."""
+    """Step S41.  A function of the reference tree that is gone while a new one with the same place (module; same class, or a
+    method that became a module-level function of the same module), the same number of parameters and a similar body has
+    appeared was RENAMED (and possibly moved out of its class): the definition and every reference to the new name (calls,
+    attribute accesses, imports) get the reference name - and place - back, repository-wide.  Renamed parameters are mapped
+    positionally before bodies are compared.  Only names that occur nowhere in the reference tree are mapped, and only when the
+    match is unique."""
+    import copy as _c9
     ref = refshapes()
     refn = {}
     for q in ref:
@@ -867,6 +873,7 @@ def normalise_function_names(repo):
         refn.setdefault(rel, set()).add(ln)
     all_ref_simple = {ln.rpartition('.')[2] for s_ in refn.values() for ln in s_}
     mapping = {}
+    moved = {}
     for rel, m in repo.modules.items():
         want = refn.get(rel)
         if not want:
@@ -879,25 +886,41 @@ def normalise_function_names(repo):
         for g in gone:
             gcls, _, gname = g.rpartition('.')
             r = ref[rel + '::' + g]
+            rps = list(r.get('params', ()))
+            want_st = set(r.get('stmts', ()))
+            if not want_st:
+                continue
             cands = []
             for nw in new:
                 ncls, _, nname = nw.rpartition('.')
-                if ncls != gcls:
-                    continue
                 fn = m.funcs[nw]
                 ps = [a.arg for a in fn.args.posonlyargs + fn.args.args]
-                if 'params' in r and ps != list(r['params']):
+                was_method = False
+                if ncls == gcls:
+                    if 'params' in r and len(ps) != len(rps):
+                        continue
+                    pmap = dict(zip(ps, rps)) if 'params' in r else {}
+                elif gcls and not ncls and rps and rps[0] in ('self', 'cls') and len(ps) == len(rps) - 1:
+                    # a method that never used self, now a function of the same module
+                    pmap = dict(zip(ps, rps[1:]))
+                    was_method = True
+                else:
                     continue
-                have_st = {U(x) for x in ast.walk(fn) if isinstance(x, (ast.Assign, ast.AugAssign, ast.Return, ast.Expr)) and not
+                f2 = _c9.deepcopy(fn)
+                if any(k != v for k, v in pmap.items()):
+                    for x in ast.walk(f2):
+                        if isinstance(x, ast.Name) and x.id in pmap:
+                            x.id = pmap[x.id]
+                have_st = {U(x) for x in ast.walk(f2) if isinstance(x, (ast.Assign, ast.AugAssign, ast.Return, ast.Expr)) and not
                            (isinstance(x, ast.Expr) and isinstance(x.value, ast.Constant))}
-                want_st = set(r.get('stmts', ()))
-                if not want_st:
-                    continue
                 sim = len(have_st & want_st) / max(1, len(have_st | want_st))
                 if sim >= 0.5:
-                    cands.append((sim, nw))
+                    cands.append((sim, nw, was_method, pmap))
             if len(cands) == 1:
-                mapping[(rel, cands[0][1])] = g
+                sim, nw, was_method, pmap = cands[0]
+                mapping[(rel, nw)] = g
+                if was_method:
+                    moved[(rel, nw)] = (g, pmap)
     if not mapping:
         return {}
     simple = {}
@@ -906,7 +929,37 @@ def normalise_function_names(repo):
         if a in simple and simple[a] != b:
             return {}
         simple[a] = b
-    # the new names must not be used for anything else in the reference (they are fresh identifiers)
+    # functions that left their class: every call must be a plain call from inside a method of that class, else give up on them
+    for (rel, nw), (g, pmap) in list(moved.items()):
+        m = repo.modules[rel]
+        gcls = g.rpartition('.')[0]
+        cls = m.classes.get(gcls)
+        fn = m.funcs[nw]
+        ok = cls is not None
+        inside = set()
+        if ok:
+            for meth in cls.body:
+                for x in ast.walk(meth):
+                    inside.add(id(x))
+        refs = [x for m2 in repo.modules.values() for x in ast.walk(m2.tree)
+                if (isinstance(x, ast.Name) and x.id == nw) or (isinstance(x, ast.Attribute) and x.attr == nw) or
+                (isinstance(x, ast.alias) and x.name == nw)]
+        calls = [x for x in ast.walk(m.tree) if isinstance(x, ast.Call) and isinstance(x.func, ast.Name) and x.func.id == nw]
+        if not ok or len(refs) != len(calls) or any(id(c) not in inside for c in calls):
+            del mapping[(rel, nw)]
+            simple.pop(nw, None)
+            del moved[(rel, nw)]
+            continue
+        # move the definition back into the class as a method and call it through self
+        m.tree.body.remove(fn)
+        selfname = (ref[rel + '::' + g].get('params') or ['self'])[0]
+        fn.args.args.insert(0, ast.arg(arg=selfname))
+        cls.body.append(fn)
+        for c in calls:
+            c.func = ast.copy_location(ast.Attribute(value=ast.Name(id='self', ctx=ast.Load()), attr=nw, ctx=ast.Load()), c.func)
+        ast.fix_missing_locations(m.tree)
+    if not mapping:
+        return {}
     for rel, m in repo.modules.items():
         changed = False
         for x in ast.walk(m.tree):
@@ -922,7 +975,7 @@ def normalise_function_names(repo):
             elif isinstance(x, ast.alias) and x.name in simple:
                 x.name = simple[x.name]
                 changed = True
-        if changed:
+        if changed or any(k[0] == rel for k in moved):
             m.reindex()
     return {'%s::%s' % k: v for k, v in mapping.items()}
 
